@@ -697,7 +697,7 @@ def positive_control(ctx):
     with tempfile.TemporaryDirectory() as d:
         with open(os.path.join(d, 'configuration.py'), 'w') as f:
             f.write(FIXTURE)
-        c2 = Ctx('C19', root=d, quiet=True)
+        c2 = Ctx('C19', root=d, quiet=True, normalise=False)
         t = Taint(c2)
         e = c2.escape('fx', extra_effects=t.effects)
         got = set(e.escapes(c2.prog.func(CLS + '.__init__')))
